@@ -93,6 +93,11 @@ MUTANTS = [
      "    def gen_missing_list():\n"
      "        for loc in progbar(where_missing, disable=not show_progbar):\n"
      "            yield tuple(values[i] for values, i in zip(all_values, loc))\n"),
+    ("extension-via-splitext-replaces-suffix", "C14", MG,
+     "    if not any(ext in file_name for ext in _engine_extensions.values()):\n        extension = _engine_extensions[engine]\n        file_name += extension\n",
+     "    root, ext = os.path.splitext(file_name)\n    if ext not in _engine_extensions.values():\n        file_name = root + _engine_extensions[engine]\n"),
+    ("missing-ignores-non-dimension-keys", "C13", CR,
+     "        sds = ds.sel(setting)\n", "        sds = ds.sel({k: v for k, v in setting.items() if k in ds.dims})\n"),
 ]
 
 # Equivalent in this environment (NOT caught, and cannot be: behaviour is unchanged):
